@@ -88,6 +88,10 @@ def make_record(spec, index=0):
         rec.blend_mode = BlendMode.NORMAL if blend == BlendMode.PASS_THROUGH else blend
     else:
         rec.blend_mode = blend
+    if "rec_blend" in spec:
+        # the blend key of the layer RECORD given explicitly (Photoshop writes 'pass' both in the record of a
+        # pass-through group and in its divider block; psd-tools writes 'norm' in the record)
+        rec.blend_mode = BlendMode[spec["rec_blend"]]
     if nsds is not None:
         rec.tagged_blocks[Tag.NESTED_SECTION_DIVIDER_SETTING] = TaggedBlock(
             key=Tag.NESTED_SECTION_DIVIDER_SETTING,
